@@ -600,6 +600,16 @@ def families(tier):
                                                      for nm in A.POLYGONS], chunk=1))
         phs = ['tetrahedron', 'box', 'pyramid', 'cut-cube'] if tier == 'quick' else list(A.POLYHEDRA)
         fams.append(Groups('polyhedra/' + pose.name, [polyhedron_group(pose(A.polyhedron(nm)), tier) for nm in phs], chunk=1))
+    # directions of rational length whose unit vector (and moment / offset) is a short terminating decimal: the hashed
+    # quantities sit exactly ON the 10-digit grid, as far from a rounding boundary as they can be, and the float noise of the
+    # different representations falls on both sides of the grid point
+    tdirs = [(3, 4, 0), (0, 3, -4), (4, 0, 3), (-3, 4, 0), (7, 24, 0), (12, 15, 16), (9, -12, 20), (F(3, 2), 2, 0), (0, F(-7, 4), 6)]
+    tpts = lpts[:3] + [(1, 2, 3), (F(-1, 2), F(5, 4), -2)]
+    if tier == 'quick':
+        tdirs, tpts = tdirs[:6], tpts[1:4]
+    fams.append(Groups('lines/terminating-decimal-directions', [line_group(p, d) for p in tpts for d in tdirs], chunk=3))
+    fams.append(Groups('halflines/terminating-decimal-directions', [halfline_group(p, d) for p in tpts for d in tdirs], chunk=3))
+    fams.append(Groups('planes/terminating-decimal-normals', [plane_group(p, d) for p in tpts for d in tdirs], chunk=3))
     base = [('Point', (1, 2, 3), 'float'), ('Line/PV', (0, 0, 0), (1, 1, 0), 'float'), ('Plane/PN', (0, 0, 1), (0, 1, 1), 'float'),
             ('Polygon', A.POLYGONS['square'], 'float')]
     tet = A.polyhedron('tetrahedron')
